@@ -109,6 +109,8 @@ def h_flips(cx, su, sv, dim=3):
     cx.eq('flip_ctrlpts2d', t, [[g[i][j] for i in range(su)] for j in range(sv)])
     cx.eq('flip_ctrlpts2d_involution', C.flip_ctrlpts2d(t, sv, su), g)
     cx.eq('flip_ctrlpts2d_autosize', C.flip_ctrlpts2d(g), t)
+    cx.eq('flip_ctrlpts2d_only_size_u', C.flip_ctrlpts2d(g, size_u=su), t)
+    cx.eq('flip_ctrlpts2d_only_size_v', C.flip_ctrlpts2d(g, size_v=sv), t)
 
 
 def h_transpose(cx, sp, via):
@@ -211,6 +213,21 @@ def h_extract_construct_surface(cx, sp, direction):
     cx.eq('rebuilt.sizes', shapes.sizes(s2), [su, sv])
     cx.eq('rebuilt.degrees', shapes.degrees(s2), shapes.degrees(obj))
     cx.eq('rebuilt.ctrlpts', [list(p) for p in s2.ctrlpts], [list(p) for p in P])
+    # the `rational` keyword spelled out (same value as the default taken from the curves)
+    if direction == 'u':
+        s3 = con.construct_surface('u', *cur['v'], degree=obj.degree_u, knotvector=list(obj.knotvector_u), rational=bool(W))
+    else:
+        s3 = con.construct_surface('v', *cur['u'], degree=obj.degree_v, knotvector=list(obj.knotvector_v), rational=bool(W))
+    cx.eq('rebuilt_explicit_rational.ctrlpts', [list(p) for p in s3.ctrlpts], [list(p) for p in P])
+    cx.check('rebuilt_explicit_rational.kind', s3.rational == bool(W))
+    if W:
+        cx.eq('rebuilt_explicit_rational.weights', list(s3.weights), list(W))
+        # rational=False with rational curves: the documented way to drop the weights -> the plain control net
+        drop = con.construct_surface(direction, *(cur['v'] if direction == 'u' else cur['u']), degree=shapes.degrees(obj)[0 if direction == 'u' else 1],
+                                     knotvector=list(shapes.knotvectors(obj)[0 if direction == 'u' else 1]), rational=False)
+        cx.check('weights_dropped.kind', drop.rational is False)
+        cx.check('weights_dropped.dimension', drop.dimension == sp['dim'], 'dimension %s' % drop.dimension)
+        cx.eq('weights_dropped.ctrlpts', [list(p) for p in drop.ctrlpts], [list(p) for p in P])
     if W:
         cx.eq('rebuilt.weights', list(s2.weights), list(W))
     prm = shapes.sym_params(cx, obj)
